@@ -323,23 +323,69 @@ def _run_hyp(ctx, shard, nshards):
 
 
 def _run_machine(ctx, shard, nshards):
+    """Stateful parts.  Hypothesis' own shrinker replays the history many times in the same process; a violation of a
+    history property usually means hidden state, which makes those replays non-reproducible (Hypothesis then reports Flaky).
+    So the failing history is recorded as soon as the invariant fails and minimised afterwards by removing steps and replaying
+    each candidate in a fresh forked child (part.replay)."""
     import hypothesis
     from hypothesis.stateful import run_state_machine_as_test
     part = ctx.part
     n = max(1, part.max_examples // nshards)
-    for attempt in range(MAX_RESTARTS + 1):
+    for attempt in range(2):
         ctx.last_fail = None
         cls = part.machine()
         try:
             run_state_machine_as_test(hypothesis.seed(derive_seed(ctx.seed, part.name, shard, attempt))(cls),
-                                      settings=hyp_settings(n, steps=part.steps))
+                                      settings=hyp_settings(n, steps=part.steps, shrink=False))
             return
-        except AssertionError:
+        except BaseException:
             if ctx.last_fail is None:
                 raise
             case, v, obs = ctx.last_fail
+            case = _minimise_trace(ctx, part, case, v)
             ctx.add_violation(case, v, obs, shrunk=True)
             ctx.excluded_buckets.add(v.bucket)
+
+
+def _fails_in_fresh_child(part, case, kind, allowance=120):
+    ctxm = mp.get_context('fork')
+    rd, wr = ctxm.Pipe(duplex=False)
+
+    def body():
+        try:
+            r = part.replay(case)
+            wr.send(any(v.kind == kind for v in r.violations))
+        except BaseException:
+            wr.send(False)
+        os._exit(0)
+    p = ctxm.Process(target=body)
+    p.start()
+    wr.close()
+    ok = False
+    if rd.poll(allowance):
+        ok = rd.recv()
+    p.kill()
+    p.join()
+    return ok
+
+
+def _minimise_trace(ctx, part, case, v, budget=40):
+    """greedy step removal; a candidate is kept only if it still fails in a fresh child"""
+    if part.replay is None or not isinstance(case, dict) or 'trace' not in case:
+        return case
+    trace = list(case['trace'])
+    if not _fails_in_fresh_child(part, {'trace': trace}, v.kind):
+        return dict(case, note='history did not reproduce in a fresh process (state from earlier histories in the same worker was involved)')
+    i = 0
+    while i < len(trace) and budget > 0 and len(trace) > 1:
+        ctx.heartbeat()
+        cand = trace[:i] + trace[i + 1:]
+        budget -= 1
+        if _fails_in_fresh_child(part, {'trace': cand}, v.kind):
+            trace = cand
+        else:
+            i += 1
+    return {'trace': trace}
 
 
 def _child(check, part, shard, nshards, findings, slot, beat, tier, seed, outpath):
